@@ -182,7 +182,6 @@ inline uint64_t max_row_gap_units(const Model& m) {
   return gap >> (q ? floor_log2_u64(q) : 0);
 }
 
-inline uint64_t dbits(double d) { uint64_t u; memcpy(&u, &d, 8); return u; }
 
 // (lg_k, C) -> estimate bits + matrix hash of the first merged sketch seen with that (lg_k, C) in this process
 struct MergedSeen { uint64_t est_bits; uint64_t mat_hash; };
